@@ -62,6 +62,7 @@ pub fn request(dna: &[u16]) -> (String, usize, usize) {
             }
         }
     }
+    let _ = crate::props::c12::exotic_in_process(&mut spec, &mut d);
     let mut nf = 0;
     if d.chance(35) {
         // two independent faults: which diagnostic is reported first must not depend on map order
@@ -120,7 +121,7 @@ pub fn run(ctx: &Ctx) -> i32 {
         ctx,
         "requests weighted towards 2..6 Into targets and invalid requests with two independent faults; each is expanded 8 times \
          in one process (every HashMap gets a fresh RandomState) and once in each of several freshly spawned processes; all outcomes \
-         (token text or diagnostic text) must be identical, also between the dev-profile and a release-profile build of the macro; non-trivial = at least 2 Into targets or 2 faults; distinct by request hash",
+         (token text or diagnostic text) must be identical, also between the dev-profile and a release-profile build of the macro and between processes with different environments (emptied, other working directory, every variable the sources mention set to a panel of values); non-trivial = at least 2 Into targets or 2 faults; distinct by request hash",
     );
     rep.assumptions.push("detection is probabilistic: k order-sensitive items survive 8 repetitions with probability (1/k!)^7".into());
     let known = check::load_known();
@@ -272,6 +273,61 @@ pub fn run(ctx: &Ctx) -> i32 {
     }
     rep.count("cross_process_comparisons", cross);
     rep.count("processes", procs as u64);
+    // across environments: "nothing but the input tokens and the enabled features" excludes the process environment.
+    // Fresh processes run with an emptied environment, from another directory, and with every variable the sources
+    // mention (plus cargo's usual ones) set to a panel of values
+    {
+        let names = env_names();
+        rep.extra.insert("environment_variables_varied".into(), json!(names));
+        let panel = ["", "0", "1", "true", "1.60", "1.93", "1.95.0", "release", "x86_64-unknown-linux-gnu", "/nonexistent", "\u{e9}"];
+        // one emptied environment plus one process per panel value: every variable takes every value once
+        let nenv = 1 + panel.len() * if ctx.thorough() { 2 } else { 1 };
+        let per_env = if ctx.thorough() { n.min(2000) } else { n.min(600) };
+        let children: Vec<std::process::Child> = (0..nenv)
+            .map(|k| {
+                let mut c = std::process::Command::new(&exe);
+                c.args(["C16-child", &per_env.to_string()]).stdout(std::process::Stdio::piped());
+                if k == 0 {
+                    c.env_clear();
+                } else {
+                    for (j, name) in names.iter().enumerate() {
+                        c.env(name, panel[(k + j) % panel.len()]);
+                    }
+                }
+                if k % 2 == 1 {
+                    c.current_dir("/");
+                }
+                c.env("VERIF_SEED", ctx.seed.to_string());
+                c.spawn().expect("spawn child")
+            })
+            .collect();
+        let outs: Vec<std::process::Output> = children.into_iter().map(|c| c.wait_with_output().expect("child")).collect();
+        let mut reported = 0;
+        let mut compared = 0u64;
+        for (k, o) in outs.iter().enumerate() {
+            let text = String::from_utf8_lossy(&o.stdout);
+            for line in text.lines() {
+                let mut it = line.split(' ');
+                let (Some(i), Some(h)) = (it.next().and_then(|s| s.parse::<usize>().ok()), it.next().and_then(|s| u64::from_str_radix(s, 16).ok())) else { continue };
+                compared += 1;
+                if i < my_hashes.len() && h != my_hashes[i] && reported < 5 {
+                    reported += 1;
+                    let (src, _, _) = request(&trees[i].current());
+                    rep.violations.push(Failure {
+                        msg: format!("a process with a different environment (variant {k}: {}) produced a different expansion", if k == 0 { "emptied".to_string() } else { format!("{} variables set from the panel", names.len()) }),
+                        dna: trees[i].current(),
+                        variant: "cross-environment".into(),
+                        source: src,
+                        unit_body: None,
+                    });
+                }
+            }
+        }
+        rep.count("cross_environment_comparisons", compared);
+        if compared == 0 {
+            rep.inconclusive.push("the environment lane produced no comparison".into());
+        }
+    }
     // across builds: the same sources compiled with the release profile (no debug assertions, no overflow checks, full
     // optimisation) must expand every request to the same tokens / the same diagnostic as this (dev profile) build
     {
@@ -355,4 +411,42 @@ fn drive(exe: &std::path::Path, srcs: &[String]) -> Result<Vec<String>, String> 
         return Err(format!("the release-profile driver answered {} of {} requests (it may have crashed: {:?})", lines.len(), srcs.len(), o.status));
     }
     Ok(lines)
+}
+
+/// names of environment variables worth varying: everything the subject's sources mention in `var("..")`, `var_os("..")`,
+/// `env!("..")`, `option_env!("..")`, plus what cargo and rustc usually export to build scripts and proc macros
+fn env_names() -> Vec<String> {
+    let mut names: std::collections::BTreeSet<String> = [
+        "CARGO_PKG_NAME", "CARGO_PKG_VERSION", "CARGO_PKG_RUST_VERSION", "CARGO_PKG_AUTHORS", "CARGO_MANIFEST_DIR", "CARGO_CRATE_NAME", "CARGO_PRIMARY_PACKAGE",
+        "CARGO", "CARGO_HOME", "OUT_DIR", "PROFILE", "DEBUG", "OPT_LEVEL", "TARGET", "HOST", "RUSTC", "RUSTC_WRAPPER", "RUSTFLAGS", "RUST_BACKTRACE", "RUST_LOG",
+        "RUST_MIN_STACK", "LANG", "LC_ALL", "TZ", "HOME", "USER", "PWD", "TERM", "NO_COLOR", "CI", "DOCS_RS", "SOURCE_DATE_EPOCH",
+    ]
+    .iter()
+    .map(|s| s.to_string())
+    .collect();
+    fn walk(dir: &std::path::Path, out: &mut std::collections::BTreeSet<String>) {
+        let Ok(rd) = std::fs::read_dir(dir) else { return };
+        for e in rd.flatten() {
+            let p = e.path();
+            if p.is_dir() {
+                walk(&p, out);
+            } else if p.extension().map(|x| x == "rs").unwrap_or(false) {
+                let Ok(text) = std::fs::read_to_string(&p) else { continue };
+                for key in ["var(\"", "var_os(\"", "env!(\"", "option_env!(\"", "var(\n", "var_os(\n"] {
+                    let mut rest = text.as_str();
+                    while let Some(i) = rest.find(key) {
+                        let after = &rest[i + key.len()..];
+                        let after = after.trim_start().trim_start_matches('"');
+                        let name: String = after.chars().take_while(|c| c.is_ascii_alphanumeric() || *c == '_').collect();
+                        if !name.is_empty() && name.chars().next().map(|c| c.is_ascii_uppercase()).unwrap_or(false) {
+                            out.insert(name);
+                        }
+                        rest = &rest[i + key.len()..];
+                    }
+                }
+            }
+        }
+    }
+    walk(std::path::Path::new(engine::REPO).join("src").as_path(), &mut names);
+    names.into_iter().collect()
 }
